@@ -247,6 +247,7 @@ def build(family, p):
     wit.append(tuple([4, 0] + [0, BASE] * (k - 1)))   # deadline then reply
     wit.append(tuple([5, 0] + [1, BASE] * (k - 1)))   # loss then reply
     wit.append(tuple(([1, BASE, 4, 0, 0, BASE, 1, BASE + 1])[:2 * k]))   # error reply, then the deadline passes
+    wit.append(tuple(([1, BASE, 1, BASE + n - 1, 1, BASE, 0, BASE])[:2 * k]))   # error replies for two different calls
     wit.append(tuple(([0, BASE + n - 1, 4, 0, 5, 0, 1, BASE])[:2 * k]))   # return for the last call, deadline, loss
     if p.get('first') is not None:
         pre = list(p['first'])
